@@ -3898,7 +3898,12 @@ public:
     //! @brief Checks if has value
     constexpr bool has_value() const noexcept
     {
-        return (val != Derived::null_value());
+        // floating-point `nullValue` is NaN by default and NaN never compares
+        // equal, even to itself
+        return !(
+            (val == Derived::null_value())
+            || ((val != val)
+                && (Derived::null_value() != Derived::null_value())));
     }
 
     //! @brief Checks if has value
@@ -3918,7 +3923,9 @@ public:
     constexpr friend bool
         operator==(const optional_base& lhs, const optional_base& rhs) noexcept
     {
-        return *lhs == *rhs;
+        return (lhs.has_value() && rhs.has_value())
+                   ? (*lhs == *rhs)
+                   : (lhs.has_value() == rhs.has_value());
     }
 
 #ifdef SBEPP_DOXYGEN
@@ -3943,7 +3950,7 @@ public:
     constexpr friend bool
         operator!=(const optional_base& lhs, const optional_base& rhs) noexcept
     {
-        return *lhs != *rhs;
+        return !(lhs == rhs);
     }
 
     //! @brief Tests if `lhs` is less than `rhs`
